@@ -56,7 +56,7 @@ def main():
         }],
         "checks": checks,
         "not_applicable": na,
-        "notes": "fix: commits in /repo (F1 F3 F4 F6 F9) are listed in known_findings.json as fixed; known findings F2 F5 F7 F8 are reported as KNOWN-FINDING lines",
+        "notes": "fix: commits in /repo (F1 F3 F4 F6 F9 F10) are listed in known_findings.json as fixed; known findings F2 F5 F7 F8 are reported as KNOWN-FINDING lines",
     }
     with open(os.path.join(ROOT, "MANIFEST.json"), "w") as f:
         json.dump(m, f, indent=1)
